@@ -54,7 +54,13 @@ EXTRA_THEOREMS += [
     "PymotoVerif.C01Generic.einSum_sensitivity_is_adjoint",
     "PymotoVerif.C01Generic.mathGeneral_sens_is_derivative_given_pointwise_derivative",
 ]
-EXTRA_LEAN_MODULES = ["PymotoVerif.Props.C01Generic", "PymotoVerif.Props.C01Assembly", "PymotoVerif.Props.C07", "PymotoVerif.Props.C11", "PymotoVerif.Props.C09", "PymotoVerif.Props.C16", "PymotoVerif.Props.C12", "PymotoVerif.Props.C14",
+EXTRA_THEOREMS += [   # the implicit-function step: the coded sensitivities ARE the derivative along every differentiable curve
+    "PymotoVerif.C07Deriv.linsolve_sensitivity_is_derivative", "PymotoVerif.C07Deriv.linsolve_sensitivity_is_derivative_complex",
+    "PymotoVerif.C07Deriv.inverse_sensitivity_is_derivative", "PymotoVerif.C07Deriv.inverse_sensitivity_is_derivative_complex",
+    "PymotoVerif.C07Deriv.soe_sensitivity_is_derivative", "PymotoVerif.C07Deriv.soe_sensitivity_is_derivative_complex_re",
+    "PymotoVerif.C07Deriv.staticcond_sensitivity_is_derivative", "PymotoVerif.C07Deriv.staticcond_sensitivity_is_derivative_complex_re",
+]
+EXTRA_LEAN_MODULES = ["PymotoVerif.Props.C07Deriv", "PymotoVerif.Props.C01Generic", "PymotoVerif.Props.C01Assembly", "PymotoVerif.Props.C07", "PymotoVerif.Props.C11", "PymotoVerif.Props.C09", "PymotoVerif.Props.C16", "PymotoVerif.Props.C12", "PymotoVerif.Props.C14",
                       "PymotoVerif.Props.C02"]
 RULE = ("einsum stream: random einsum expressions (1-3 operands, vectors / matrices / 3-tensors over 4 letters with extents 1-3, "
         "contractions, outer products, transposes, indices summed out of one operand, the one-operand scalar-output branch, repeated-index "
